@@ -440,7 +440,20 @@ def buf_ops():
     return ops
 
 
+WIDE = {'a': 'ab', 'b': 'b', 'c': 'c'}     # multi-character items (token_backed == 2)
+
+
+def items_of(seq, token_backed):
+    return [WIDE[c] for c in seq] if token_backed == 2 else list(seq)
+
+
 def mkbuf(seq, token_backed):
+    if token_backed == 2:
+        pos, toks = 0, []
+        for it in items_of(seq, 2):
+            toks.append(Token(it, pos))
+            pos += len(it)
+        return Buffer(iter(toks))
     if token_backed:
         return Buffer(iter([Token(c, 10 + 3 * i) for i, c in enumerate(seq)]))
     return Buffer(seq)
@@ -512,7 +525,7 @@ def apply_buf_op(b, L, i, op):
 
 def _c20_run(seq, ops, tb):
     b = mkbuf(seq, tb)
-    L = list(seq)
+    L = items_of(seq, tb)
     i = 0
     applied = []
     for op in ops:
@@ -553,11 +566,14 @@ def oracle_C20(tier):
                 cases.append((s, o, False))
                 if len(s) <= 2 or tier != 'quick':
                     cases.append((s, o, True))
+                if 'a' in s and (n <= 2 or tier != 'quick'):
+                    cases.append((s, o, 2))        # items longer than one character
     nex = len(cases)
     rng = rng_for('C20', 'random')
     for _ in range(1000 if tier == 'quick' else 30000):
         s = ''.join(rng.choice('abc') for _ in range(rng.randint(0, 8)))
-        cases.append((s, tuple(rng.choice(ops) for _ in range(rng.randint(4, 40))), rng.random() < 0.5))
+        cases.append((s, tuple(rng.choice(ops) for _ in range(rng.randint(4, 40))),
+                      rng.choice([False, True, 2])))
     res = Result('oracle-C20')
     for r in pmap(_c20_chunk, chunked(cases, NPROC * 2)):
         res.merge(r)
